@@ -1065,6 +1065,30 @@ def c01_key(rep, W, rule="C01.KEY"):
         fnr = short_fn(rb)
         sel = [i for i in inst if i.owner.key == rb.key and i.stmt and i.stmt["verb"] == "SELECT"]
         rep.ob(rule, (fnr, "one-select"), len(sel) == 1 and sel[0].stmt["table"] == "versions", "%d SELECT(s) on versions" % len(sel), where(rb))
+        # what the method returns: the query result, possibly with the Version taken out of a private row type first
+        # (`row.map(|row| row.version)` on a `struct VersionRow { version: Version, .. }` built by the row mapper)
+        ret_paths = []
+        for site, term in exits(W, rb):
+            if is_error_exit(term):
+                continue
+            t2 = term
+            if t2[0] == "agg":
+                mm = m(pat.adt("Result", "Ok", ("0", V("x"))), t2)
+                t2 = mm["x"] if mm else t2
+            path = []
+            if t2[0] == "phi" and len(t2) == 4 and set(dict(t2[3])) == {"None", "Some"} and dict(t2[3])["None"] == ("unit",):
+                t2 = dict(t2[3])["Some"]
+                while t2[0] == "field":
+                    path.append(t2[2])
+                    t2 = t2[1]
+                path.reverse()
+            while t2[0] == "ok":
+                t2 = t2[1]
+            t2 = P.strip_ok_preserving(t2)
+            okr = t2[0] == "call" and (t2[1].endswith("::get_version_impl") or t2[1] == "rusqlite::OptionalExtension::optional")
+            ret_paths.append(tuple(path) if okr else None)
+            rep.ob(rule, (fnr, "returns-query-result"), okr, "%s returns %s" % (mth, P.show(term)[:160]), where(rb), nontrivial=False)
+        row_path = ret_paths[0] if ret_paths and all(p_ == ret_paths[0] for p_ in ret_paths) and ret_paths[0] is not None else ()
         for i in sel:
             w = dict((c, e) for c, e in i.stmt["where"] if c)
             e = w.get(col)
@@ -1076,7 +1100,11 @@ def c01_key(rep, W, rule="C01.KEY"):
                 for site, term in exits(W, i.site.closure):
                     if is_error_exit(term):
                         continue
-                    mm = m(pat.adt("Result", "Ok", ("0", pat.adt("Version", "Version", ("version_id", V("v")), ("parent_version_id", V("p")), ("history_segment", V("h"))))), term)
+                    rowv = m(pat.adt("Result", "Ok", ("0", V("row"))), term)
+                    rowv = rowv["row"] if rowv else None
+                    for fld in row_path:
+                        rowv = P.mk_field(rowv, fld) if rowv is not None and rowv[0] == "agg" else None
+                    mm = m(pat.adt("Version", "Version", ("version_id", V("v")), ("parent_version_id", V("p")), ("history_segment", V("h"))), rowv) if rowv is not None else None
                     okf = False
                     if mm is not None:
                         def colof(t):
@@ -1093,17 +1121,6 @@ def c01_key(rep, W, rule="C01.KEY"):
             sel_cols = set(i.stmt["select"])
             rep.ob(rule, (fnr, "select-list"), {"version_id", "parent_version_id", "history_segment"} <= sel_cols or "*" in sel_cols,
                    "select list %s" % sorted(sel_cols), i.where(), nontrivial=False)
-        # the method returns the helper's result unchanged
-        for site, term in exits(W, rb):
-            t2 = term
-            if t2[0] == "agg":
-                mm = m(pat.adt("Result", "Ok", ("0", V("x"))), t2)
-                t2 = mm["x"] if mm else t2
-            while t2[0] == "ok":
-                t2 = t2[1]
-            t2 = P.strip_ok_preserving(t2)
-            okr = t2[0] == "call" and (t2[1].endswith("::get_version_impl") or t2[1] == "rusqlite::OptionalExtension::optional")
-            rep.ob(rule, (fnr, "returns-query-result"), okr or is_error_exit(term), "%s returns %s" % (mth, P.show(term)[:160]), where(rb), nontrivial=False)
     # ---- in-memory writer
     mb = W.impl_method("inmemory", "add_version")
     fnm = short_fn(mb)
@@ -1638,11 +1655,31 @@ def c10(rep, W, rule="C10"):
     snap_terms = [x for a in g.atoms for part in a[1:] if isinstance(part, tuple) for x in P.walk(part)
                   if x[0] == "phi" and len(x) == 4 and option_map_of(g, pv, x, csnap) is not None]
     snap_terms = list(set(snap_terms))
-    oks = len(snap_terms) == 1 and option_map_of(g, pv, snap_terms[0], csnap) == ("field", ("ok", csnap), "version_id")
-    rep.ob(rule, (fn, "snapshot-version"), oks, "the existing snapshot's version is None when the client has no snapshot and Some(snapshot.version_id) otherwise (%d candidate term(s))" % len(snap_terms), where(body))
-    if not oks:
-        return
-    SNAP = snap_terms[0]
+    SNAPVER = ("field", ("ok", csnap), "version_id")
+    hasS = ("VARIANT", csnap)
+    oks = len(snap_terms) == 1 and option_map_of(g, pv, snap_terms[0], csnap) == SNAPVER
+    SNAP = snap_terms[0] if oks else None
+    # The comparison `Some(x) == existing snapshot's version` has two spellings in the product: the comparison of two
+    # Option values (legacy atom EQ(Some(x), SNAP)), or -- when the Option was bound to a local and is read under the
+    # valuation, or the code says `if let Some(s) = &client.snapshot { s.version_id == x }` / `is_some_and(..)` -- the test
+    # of client.snapshot's variant plus EQ(x, snapshot.version_id).  Both are accepted; T / F are "the comparison holds" /
+    # "does not hold" in a valuation.
+    some = lambda p_: pat.adt("Option", "Some", ("0", p_))  # noqa: E731
+
+    def opt_eq(xpat):
+        leg = find_eq_atom(g, some(xpat), SNAP) if SNAP is not None else None
+        red = find_eq_atom(g, xpat, SNAPVER)
+        if leg is None and red is None:
+            return None
+        T, F = ["or"], ["or"]
+        if leg is not None:
+            T.append(("is", leg, True))
+            F.append(("is", leg, False))
+        if red is not None:
+            T.append(("and", ("is", hasS, "ok"), ("is", red, True)))
+            F.append(("is", red, False))
+        F.append(("is", hasS, "err"))
+        return {"T": tuple(T), "F": tuple(F), "atoms": [a_ for a_ in (leg, red) if a_ is not None]}
     # loop variables
     vids = [l for l in pv.phi_locals if body.locals[l]["ty"] == "uuid::Uuid" and body.locals[l]["user"]]
     if len(vids) != 1:
@@ -1650,12 +1687,13 @@ def c10(rep, W, rule="C10"):
         return
     vid_l = vids[0]
     VID = ("phi", vid_l, ANY)
-    some = lambda p_: pat.adt("Option", "Some", ("0", p_))  # noqa: E731
-    e = find_eq_atom(g, some(v), SNAP)
+    e = opt_eq(v)
     mt = find_eq_atom(g, v, VID)
     z = find_eq_atom(g, v, nil_const_pat())
-    s = find_eq_atom(g, some(VID), SNAP)
+    s = opt_eq(VID)
     n = find_eq_atom(g, VID, nil_const_pat())
+    rep.ob(rule, (fn, "snapshot-version"), e is not None and s is not None,
+           "the requested id and every walked id are compared with the existing snapshot's version (None when the client has no snapshot, Some(snapshot.version_id) otherwise)", where(body))
     gvs = sites_of(body, WD.tm("get_version"))
     names = {"G0 Some(v)==snapshot": e, "G1 vid==v": mt, "G1 v!=NIL": z, "G2 Some(vid)==snapshot": s, "G3 vid==NIL": n}
     for nm, a in names.items():
@@ -1694,7 +1732,7 @@ def c10(rep, W, rule="C10"):
         rep.fail(rule, (fn, "W", "single-writer"), "%d set_snapshot sites" % len(ss_), where(body))
         return
     wbb = ss_[0][0]
-    fW = ("and", ("is", e, False), ("is", mt, True), ("is", z, False))
+    fW = ("and", e["F"], ("is", mt, True), ("is", z, False))
     rep.ob(rule, (fn, "W", "guard"), all_vals(g, (wbb, "T"), fW),
            "set_snapshot is reached only when v is not the current snapshot, v equals the walked id and v != NIL; offending: %s" % failing_vals(g, (wbb, "T"), fW)[:1], where(body, wbb))
     wa = pv.arg_terms(wbb)
@@ -1727,21 +1765,21 @@ def c10(rep, W, rule="C10"):
     if len(step_v) != 1:
         return
     vsite = step_v[0][0]
-    cont = ("and", ("or", ("is", mt, False), ("is", z, True)), ("is", s, False), ("is", n, False), ("is", gatom, "ok"))
+    cont = ("and", ("or", ("is", mt, False), ("is", z, True)), s["F"], ("is", n, False), ("is", gatom, "ok"))
     rep.ob(rule, (fn, "ITER", "continue-conditions"), all_vals(g, vsite, cont),
            "the walk advances only when: not accepted, vid is not the snapshot version, vid != NIL, version found; offending: %s"
            % failing_vals(g, vsite, cont)[:1], where(body, vsite[0]))
     # the newer-snapshot test is evaluated on every id the accept test is evaluated on, before the walk advances
-    s_bbs = set(g.atoms.get(s, []))
+    s_bbs = set(bb_ for a_ in s["atoms"] for bb_ in g.atoms.get(a_, []))
     okorder = True
     for st_ in g.states_at_block(vsite[0]):
-        okorder = okorder and dict(st_[1]).get(s) is not None
+        okorder = okorder and G.ev(("or", s["T"], s["F"]), dict(st_[1])) is True
     rep.ob(rule, (fn, "ITER", "accept-and-G2-before-step"), okorder and bool(s_bbs),
            "the accept test and the newer-snapshot test are evaluated on the current id before the walk moves to its parent", where(body, vsite[0]))
     # C10.D: every non-error exit is Ok(()); decline exits are exactly under a decline condition
     okunit = pat.adt("Result", "Ok", ("0", ("agg", "tuple", ())))
     # (z: the requested id is NIL, which is never acceptable -- declining it is right at any point of the walk)
-    decl = ("or", ("is", e, True), ("is", s, True), ("is", n, True), ("is", gatom, "err"), ("is", z, True))
+    decl = ("or", e["T"], s["T"], ("is", n, True), ("is", gatom, "err"), ("is", z, True))
     exit_blocks = {}
     nd = 0
     for site, term in exits(W, body):
